@@ -598,26 +598,8 @@ func c17Check(run *Run, s *c17Schema, prev *c17Schema) {
 		run.Violate(Violation{Kind: "oracle", Clause: "generator_json", Input: in, Detail: err.Error()}, "")
 		return
 	}
-	// the escaped-quote reason is reported with its backslashes (known finding): compare modulo that
-	escKnown := func(facts []string) ([]string, bool) {
-		hit := false
-		out := make([]string, len(facts))
-		for i, f := range facts {
-			if strings.Contains(f, `dep:Reason with \"quotes\"`) {
-				hit = true
-				f = strings.Replace(f, `Reason with \"quotes\"`, `Reason with "quotes"`, 1)
-			}
-			out[i] = f
-		}
-		sort.Strings(out)
-		return out, hit
-	}
 	if strings.Join(gfacts, "\n") != strings.Join(m.Facts, "\n") {
 		known := ""
-		if g2, hit := escKnown(gfacts); hit && strings.Join(g2, "\n") == strings.Join(m.Facts, "\n") {
-			known = "C17-deprecation-reason-not-unescaped"
-			gfacts = g2
-		}
 		// the disagreement judged against the ground truth (the structure the SDL was printed from)
 		if ground := c17GroundFacts(s); known == "" && strings.Join(gfacts, "\n") != strings.Join(ground, "\n") {
 			run.Violate(Violation{Kind: "oracle", Clause: "introspection_lists_exactly_the_schema", Input: in,
@@ -646,9 +628,6 @@ func c17Check(run *Run, s *c17Schema, prev *c17Schema) {
 			introspection.NewGenerator().Generate(schema2.Document(), &rep2, &data2)
 			j2, _ := json.Marshal(data2)
 			f2, _ := c17FactsOfJSON(j2)
-			f2, _ = escKnown(f2)
-			g0, _ := escKnown(gfacts)
-			gfacts = g0
 			if strings.Join(f2, "\n") != strings.Join(gfacts, "\n") {
 				run.Violate(Violation{Kind: "oracle", Clause: "roundtrip", Input: in, Impl: printed,
 					Detail: "left = original, right = after JSON → document → SDL: " + c17Diff(gfacts, f2)}, "")
@@ -688,9 +667,6 @@ func c17Check(run *Run, s *c17Schema, prev *c17Schema) {
 	}
 	if strings.Join(efacts, "\n") != strings.Join(m.Facts, "\n") {
 		known := ""
-		if e2, hit := escKnown(efacts); hit && strings.Join(e2, "\n") == strings.Join(m.Facts, "\n") {
-			known = "C17-deprecation-reason-not-unescaped"
-		}
 		if ground := c17GroundFacts(s); known == "" && strings.Join(efacts, "\n") != strings.Join(ground, "\n") {
 			run.Violate(Violation{Kind: "oracle", Clause: "engine_introspection_lists_exactly_the_schema", Input: in,
 				Detail: "left = engine answer, right = the generated schema itself: " + c17Diff(efacts, ground)}, "")
